@@ -102,7 +102,7 @@ func TestC02_Serializable(t *testing.T) {
 		"README: stores are pre-seeded (concurrent first commits into an empty store are unsupported)", "in-process transactions sharing the in-memory L2 cache; the multi-process variant is not built", "NoCheck transactions are excluded (they are documented to skip read checks)")
 	knownStale := stats.Known("C04", "tracked-item-pointer-stale-after-slot-shift")
 	rapid.Check(t, func(t *rapid.T) {
-		ns := rapid.IntRange(1, 2).Draw(t, "stores")
+		ns := rapid.IntRange(1, 3).Draw(t, "stores")
 		var stores []txh.StoreOpts
 		var seed [][]int
 		domain := rapid.IntRange(3, 6).Draw(t, "domain")
@@ -121,6 +121,7 @@ func TestC02_Serializable(t *testing.T) {
 			seed = append(seed, sk)
 		}
 		nt := rapid.IntRange(2, 4).Draw(t, "txns")
+		crossing := rapid.IntRange(0, 3).Draw(t, "crossingReadWriteSets") == 0
 		progs := make([]txh.TxnProg, nt)
 		tag := 0
 		for w := range progs {
@@ -132,6 +133,17 @@ func TestC02_Serializable(t *testing.T) {
 				progs[w].End = "rollback"
 			}
 			n := rapid.IntRange(1, 5).Draw(t, fmt.Sprintf("nops%d", w))
+			if crossing && progs[w].Mode == sop.ForWriting {
+				// read-then-write across stores: read one or two keys (each in a drawn store), then write another key
+				n = 0
+				for j, nr := 0, rapid.IntRange(1, 2).Draw(t, fmt.Sprintf("reads%d", w)); j < nr; j++ {
+					tag++
+					progs[w].Ops = append(progs[w].Ops, txh.Op{S: rapid.IntRange(0, ns-1).Draw(t, "rstore"), Kind: "get", K: rapid.IntRange(0, 1).Draw(t, "rkey"), Tag: fmt.Sprintf("t%d.w%d", w, tag)})
+				}
+				tag++
+				progs[w].Ops = append(progs[w].Ops, txh.Op{S: rapid.IntRange(0, ns-1).Draw(t, "wstore"), Kind: rapid.SampledFrom([]string{"update", "update", "upsert", "remove"}).Draw(t, "wkind"),
+					K: rapid.IntRange(0, 1).Draw(t, "wkey"), Tag: fmt.Sprintf("t%d.w%d", w, tag), Size: 10})
+			}
 			for j := 0; j < n; j++ {
 				tag++
 				kinds := []string{"get", "get", "rmw", "rmw", "update", "add", "addIfNotExist", "upsert", "remove", "rmv"}
